@@ -34,6 +34,11 @@ FIXED = [
  ("F22","C09","corrector.Triggs(kernel.Tolerant) float32, a/|b| > ~44","fix: Tolerant kernel","autograd rho'' underflowed to round-off garbage of either sign; rows took the positive-curvature branch (up to 3% deviation from FastTriggs)"),
  ("F23","C17","svdstf / mat2Sim3 / mat2RxSO3, batch rank >= 2","fix: mat2Sim3","raised for batch shapes like (2,3): scale (*,1) compared with zeros (*) (also C11)"),
  ("F24","C14","LQR with n_state == 1, horizon >= 2","fix: LQR with a one-dimensional","squeeze(-2) removed the state axis of A,B: RuntimeError in the backward pass"),
+ ("F25","C06","randn_like",  "fix: randn_like","returned the global default dtype/device instead of those of its input (its documentation states dtype=x.dtype, device=x.device)"),
+ ("F26","C17","svdtf (float32)","fix: svdtf detects","|det+1|<1e-6 reflection test is dtype-blind: ~0.1% of float32 reflection cases left uncorrected -> non-unit quaternion, residual 454 vs 1.7e-13"),
+ ("F27","C07","GN/LM.step with a frozen parameter","fix: GN/LM with frozen","model with a requires_grad=False parameter made step() raise (Jacobian columns vs split sizes); update_parameter paired steps with the unfiltered parameter list"),
+ ("F28","C04","RxSO3.AdjT backward under vmap (modjac vectorize=True)","fix: RxSO3 AdjT","in-place fill of a fresh matrix with a batched tensor: modjac(vectorize=True) / default GN, LM raised for models with RxSO3 AdjT (also C07)"),
+ ("F29","C15","NLS.set_refpoint() (t=None)","fix: NLS.set_refpoint","reference time aliased the live system-time buffer: A,B,C,D silently moved to later times while the reference state/input/f/g stayed"),
 ]
 KNOWN = [
  {"id":"F09","status":"known","property":"C10","entry":"solver.Cholesky","mech":"returned_vector_for_non_pd",
